@@ -125,6 +125,10 @@ func builtinMathLog(call FunctionCall) Value {
 
 func builtinMathLog10(call FunctionCall) Value {
 	number := call.Argument(0).float64()
+	if number > 0 && number < mathMinNormal {
+		// math.Log10 is math.Log(x) / Ln10 (see builtinMathLog).
+		return float64Value((math.Log(number*(1<<54)) - 54*math.Ln2) / math.Ln10)
+	}
 	return float64Value(math.Log10(number))
 }
 
